@@ -45,6 +45,9 @@ func runC06(c *ctx) {
 		"a.$length()", "b.c.$pad(8, \"-\")", "n.$string()", "n.$round()", "a.$contains(\"y\")", "items.s.$uppercase()", "items.($string(id) & s)",
 		"$match(a, /[a-z]/).match", "$replace(a, /(a)|(b)/, \"$2$1\")", "a.$contains(/y/)", "$sort(items.id, function($l, $r){$l < $r})", "$reduce(items.id, function($x, $y){$x + $y})",
 		"$fromMillis(n * 1000000)", "$formatNumber(n, \"#,##0.00\")", "$sum(items.k) + $count(items)", "$join(items.s, a)", "items[k = $$.n].id", "$lookup($, \"a\") & a",
+		// callees that are not plain $names: parenthesised, picked from an array, chosen by a conditional
+		"a.(($substringBefore)(\"z\"))", "a.([$substringBefore][0](\"z\"))", "a.((n > 0 ? $substringBefore : $substringAfter)(\"z\"))", "b.c.(($pad)(9, \"-\"))", "a.(($length)())",
+		"($f := $substringBefore; a.$f(\"z\"))", "a.($substringBefore ~> $uppercase)(\"z\")",
 		"$map([1,2,3], $string)", "$filter(items, function($v){$v.id > n}).id", "$each(b, function($v, $k){$k & $v})",
 	}
 	g := &pgen{r: r, noRand: true}
@@ -134,6 +137,9 @@ func runC06(c *ctx) {
 					j := jobs[k][(it+k)%len(jobs[k])]
 					got := c06Outcome(j.prog, evalOn(j.expr, j.input))
 					if got != j.expect {
+						if inherentlyVaries(j.prog, j.input) {
+							return
+						}
 						mu.Lock()
 						mismatches++
 						if mismatches <= 5 {
